@@ -29,6 +29,7 @@ FnExprs(t) ==
         \o Flat(MapS(SelectSeq(IntBin, LAMBDA o : o # "fill_null"), LAMBDA o : MapS(SubSeq(Lits, 1, 3), LAMBDA l : Fn2(o, l, y))))
         \o MapS(IntBin, LAMBDA o : Fn2(o, Fn2("add", x, LitI(1)), Fn1("neg", y)))
         \o <<Fn1("neg", x), Fn1("abs", x), Fn1("pos", x), Fn1("is_null", x), Fn1("is_not_null", x),
+             Fn1("neg", LitI(-3)), Fn2("sub", x, Fn1("neg", LitI(-3))), Fn1("neg", Fn1("neg", x)), Fn1("neg", LitI(0)),
              Fn2("add", Fn2("mul", Fn2("floordiv", x, y), y), Fn2("mod", x, y))>>
         \* booleans: Kleene logic
         \o MapS(BoolBin, LAMBDA o : Fn2(o, p, q))
@@ -188,7 +189,8 @@ CastExprs(t) ==
       Cast(c("b"), "int"), Cast(c("b"), "float"),
       Cast(c("sn"), "int"), Cast(c("sn"), "float"), Cast(c("sf"), "float"),
       Cast(c("d"), "datetime"), Cast(c("d"), "str"), Cast(c("dt"), "date"), Cast(c("dt"), "str"),
-      Cast(Cast(c("dt"), "date"), "str"), Cast(Cast(c("d"), "datetime"), "date"),
+      Cast(Cast(c("dt"), "date"), "str"), Cast(Cast(c("d"), "datetime"), "date"), Cast(Cast(c("d"), "datetime"), "str"),
+      Fn1("dt_hour", Cast(c("d"), "datetime")),
       Cast(Cast(c("i"), "str"), "int"), Cast(Cast(c("f"), "str"), "float"), Cast(Cast(c("f"), "int"), "float"),
       Cast(Fn2("truediv", c("i"), LitI(4)), "int"), Cast(Fn1("neg", c("f")), "int"), Cast(Fn2("gt", c("i"), LitI(0)), "int"),
       Cast(LitN, "int"), Cast(LitN, "str"), Cast(LitI(7), "str"), Cast(LitI(-7), "float"),
